@@ -54,7 +54,7 @@ CRASH_STORE_CFGS = [
 SYNC_OPS = ("Commit", "TryCommit", "OverlayCommit", "OverlayTryCommit", "Rollback", "Reopen")
 
 
-def run_crash(scripts, tag, timeout=3000):
+def run_crash(scripts, tag, timeout=7200):
     nshards = max(1, min(C.workers(14), len(scripts)))
     scratch = C.scratch_dir("crash-" + tag)
     procs = []
@@ -136,9 +136,9 @@ RULE_PROP = {"cow": "C17", "ht-after-meta": "C17", "prune-after-meta": "C17", "w
 
 PLANS = {
     "C03": dict(quick=dict(behs=8, depth=20, mode="crash", budget=2, nested=1, stride=1, fs=[1, 3, 12, 25], mc_crashes=2, mutants=False, decode=True, max_ops=4, growth=2),
-                thorough=dict(behs=150, depth=28, mode="crash", budget=6, nested=4, stride=1, fs=[1, 3, 25], mc_crashes=3, mutants=True, decode=True)),
+                thorough=dict(behs=40, depth=28, mode="crash", budget=3, nested=2, stride=1, fs=[1, 3, 25], mc_crashes=3, mutants=True, decode=True, growth=6)),
     "C04": dict(quick=dict(behs=8, depth=20, mode="both", budget=6, nested=2, stride=1, fs=[1, 3], mc_crashes=2, mutants=True, max_ops=4, decode=True),
-                thorough=dict(behs=120, depth=28, mode="both", budget=24, nested=4, stride=1, fs=[1, 3, 25], mc_crashes=3, mutants=True, decode=True)),
+                thorough=dict(behs=36, depth=28, mode="both", budget=10, nested=2, stride=1, fs=[1, 3, 25], mc_crashes=3, mutants=True, decode=True)),
     "C17": dict(quick=dict(behs=60, depth=24, mode="none", budget=0, nested=0, stride=1, fs=[1, 3, 25, 60], mc_crashes=1, mutants=True, flsweep=10),
                 thorough=dict(behs=600, depth=30, mode="none", budget=0, nested=0, stride=1, fs=[1, 3, 25, 60, 400], mc_crashes=2, mutants=True, flsweep=40)),
     # C16's crash leg: recovered images of histories whose merkle pages cross the elision threshold while parts of
